@@ -24,6 +24,8 @@ type Specs struct {
 	TypeInvs     map[string][]*Clause // "pkg.Type" -> invariants over self (assumed whenever a reference is obtained)
 	ElemsNonNil  map[string]bool      // package name -> slice elements of its pointer/interface types are non-nil
 	DefaultOpaque map[string][]string // package name -> default props: functions without a block are opaque contracts
+	Symbols       map[string]map[string]string // package -> grammar symbol -> invariant over v (a yySymType)
+	invFieldCache map[string]map[string]bool
 }
 
 type FuncSpec struct {
@@ -45,6 +47,7 @@ type FuncSpec struct {
 	Inline   bool
 	Skip     string // not verified, with the reason (listed in evidence)
 	Raw      []rawClause
+	NilOK    []string // pointer parameters that may be nil (exempt from the implicit non-nil rule)
 	DefProps []string
 	Faults   []string // K1 kinds that are specified fault behaviour (run-time panics converted by a caller)
 	Asserts  []*AnchorClause
@@ -106,7 +109,7 @@ var propTag = regexp.MustCompile(`^\[([A-Z0-9, ]+)\]\s*`)
 
 func loadSpecs(paths []string) *Specs {
 	S := &Specs{Funcs: map[string]*FuncSpec{}, PanicClasses: map[string]*Clause{}, SpecFuncs: map[string]*SpecFunc{},
-		TypeInvs: map[string][]*Clause{}, ElemsNonNil: map[string]bool{}, DefaultOpaque: map[string][]string{}}
+		TypeInvs: map[string][]*Clause{}, ElemsNonNil: map[string]bool{}, DefaultOpaque: map[string][]string{}, Symbols: map[string]map[string]string{}}
 	sort.Strings(paths)
 	for _, p := range paths {
 		S.Files = append(S.Files, p)
@@ -170,6 +173,24 @@ func (S *Specs) parseFile(file, text string) {
 				defProps = strings.Fields(rest)
 			} else {
 				cur.Props = strings.Fields(rest)
+			}
+		case "symbol":
+			// symbol a, b, c: <invariant over v>
+			cur = nil
+			k := strings.Index(rest, ":")
+			if k < 0 {
+				S.errf(file, lineNo, "symbol: expected 'names: invariant'")
+				continue
+			}
+			if S.Symbols[pkg] == nil {
+				S.Symbols[pkg] = map[string]string{}
+			}
+			if _, err := parseSpecExpr(strings.TrimSpace(rest[k+1:])); err != nil {
+				S.errf(file, lineNo, "symbol: %v", err)
+				continue
+			}
+			for _, n := range strings.Split(rest[:k], ",") {
+				S.Symbols[pkg][strings.TrimSpace(n)] = "(" + strings.TrimSpace(rest[k+1:]) + ")"
 			}
 		case "action":
 			// contract of a grammar action, named by its production; resolved to
@@ -350,6 +371,8 @@ func (S *Specs) parseClause(file string, line int, cur *FuncSpec, word, rest str
 			props = cur.Props
 		}
 		cur.Frames = append(cur.Frames, &Clause{Text: "deterministic", Props: props, Name: "deterministic", Line: line})
+	case "nilok":
+		cur.NilOK = append(cur.NilOK, strings.Fields(rest)...)
 	case "noinline":
 		cur.NoInline = true
 	case "inline":
@@ -873,4 +896,33 @@ func (p *specParser) primary() *SExpr {
 	}
 	p.fail("unexpected %q at %d", p.l.tok, p.l.i)
 	return &SExpr{Op: "bool", Name: "true"}
+}
+
+// invFields: the fields of a type that its declared invariants mention
+// (self.<field>); stores to other fields cannot break them.
+func (S *Specs) invFields(key string) map[string]bool {
+	if S.invFieldCache == nil {
+		S.invFieldCache = map[string]map[string]bool{}
+	}
+	if m, ok := S.invFieldCache[key]; ok {
+		return m
+	}
+	m := map[string]bool{}
+	var walk func(x *SExpr)
+	walk = func(x *SExpr) {
+		if x == nil {
+			return
+		}
+		if x.Op == "sel" && len(x.Args) == 1 && x.Args[0].Op == "ident" && x.Args[0].Name == "self" {
+			m[x.Name] = true
+		}
+		for _, a := range x.Args {
+			walk(a)
+		}
+	}
+	for _, inv := range S.TypeInvs[key] {
+		walk(inv.Expr)
+	}
+	S.invFieldCache[key] = m
+	return m
 }
